@@ -49,6 +49,14 @@ static std::vector<std::pair<std::string, Shape>> shapes() {
     std::string zz = gz(gz(std::string(2000, 'y')));
     v.push_back({"two_layer_response", {{0, "GET /zz HTTP/1.1\r\nHost: h\r\n\r\n"}, {1, "HTTP/1.1 200 OK\r\nContent-Encoding: gzip, gzip\r\nTransfer-Encoding: chunked\r\n\r\n" + [&] { char h[16]; snprintf(h, sizeof h, "%zx", zz.size()); return std::string(h); }() + "\r\n" + zz + "\r\n0\r\n\r\n"}}});
     v.push_back({"http_1_0_keepalive_query", {{0, "GET /q?a=%41&b=%u0042&c=+ HTTP/1.0\r\nHost: h\r\nConnection: keep-alive\r\n\r\n"}, {1, "HTTP/1.0 200 OK\r\nConnection: keep-alive\r\nContent-Length: 1\r\n\r\nx"}}});
+    // responses without a body that announce a coding (nothing ever finalises the decompressor they set up), codings that restart or never finish
+    v.push_back({"head_coded_multi", {{0, "HEAD /hc HTTP/1.1\r\nHost: h\r\n\r\n"}, {1, "HTTP/1.1 200 OK\r\nContent-Encoding: gzip, deflate\r\nContent-Length: 100\r\n\r\n"}}});
+    v.push_back({"not_modified_coded", {{0, "GET /nm HTTP/1.1\r\nHost: h\r\nIf-None-Match: \"x\"\r\n\r\n"}, {1, "HTTP/1.1 304 Not Modified\r\nContent-Encoding: gzip\r\nETag: \"x\"\r\n\r\n"}}});
+    v.push_back({"no_content_coded_multi", {{0, "GET /nc HTTP/1.1\r\nHost: h\r\n\r\n"}, {1, "HTTP/1.1 204 No Content\r\nContent-Encoding: deflate,gzip\r\n\r\n"}}});
+    { uLongf zl = compressBound(3004); std::string zw(zl, '\0'); std::string src = std::string(3000, 'w') + "tail"; compress2((Bytef *)&zw[0], &zl, (const Bytef *)src.data(), src.size(), 6); zw.resize(zl);
+      v.push_back({"deflate_zlib_wrapped_response", {{0, "GET /dz HTTP/1.1\r\nHost: h\r\n\r\n"}, {1, "HTTP/1.1 200 OK\r\nContent-Encoding: deflate\r\nContent-Length: " + std::to_string(zw.size()) + "\r\n\r\n" + zw.substr(0, 3)}, {1, zw.substr(3)}}}); }
+    { std::string t = z.substr(0, z.size() - 9); v.push_back({"truncated_gzip_response", {{0, "GET /tg HTTP/1.1\r\nHost: h\r\n\r\n"}, {1, "HTTP/1.1 200 OK\r\nContent-Encoding: gzip\r\nContent-Length: " + std::to_string(t.size()) + "\r\n\r\n" + t}}}); }
+    v.push_back({"garbage_under_gzip_response", {{0, "GET /gg HTTP/1.1\r\nHost: h\r\n\r\n"}, {1, "HTTP/1.1 200 OK\r\nContent-Encoding: gzip\r\nContent-Length: 26\r\n\r\nthis is not a gzip stream!"}}});
     return v;
 }
 
@@ -83,12 +91,15 @@ static Meter run_steady(const std::vector<std::pair<std::string, Shape>> &sh, co
 
 static std::string steady_text(const std::vector<int> &seq, int pers) { std::string s = "steady " + std::to_string(pers); size_t n = std::min<size_t>(seq.size(), 4000); for (size_t i = 0; i < n; i++) s += " " + std::to_string(seq[i]); return s + "\n"; }
 
-static std::pair<std::string, std::string> judge(const Meter &m, size_t n_tx_expected) {
+// `retained`: tolerance for state that a transaction legitimately leaves behind until the next response arrives (mixed sequences only: a response to HEAD that
+// announces a coding leaves its decompressor chain, ~31 KiB, to be destroyed by the next response); the LAST sample (mixed sequences end with gzip-coded
+// responses, as they begin) is always held to the strict bound, so a leak of any size per transaction still shows.
+static std::pair<std::string, std::string> judge(const Meter &m, size_t n_tx_expected, size_t retained = 0) {
     size_t n = m.heap.size(); if (n < 120) return {"", ""};
     size_t warm = 60; size_t base = 0; for (size_t i = warm - 10; i < warm; i++) base = std::max(base, m.heap[i]);
     size_t listbase = 0; for (size_t i = 0; i < warm; i++) listbase = std::max(listbase, m.list[i]);
     for (size_t i = warm; i < n; i++) {
-        if (m.heap[i] > base + 4096) return {"steady_state_heap_growth", "live heap after step " + std::to_string(i) + " is " + std::to_string(m.heap[i]) + " bytes, " + std::to_string(base) + " after warm-up (step " + std::to_string(warm) + "); last step " + std::to_string(m.heap[n - 1])};
+        if (m.heap[i] > base + 4096 + (i + 1 < n ? retained : 0)) return {"steady_state_heap_growth", "live heap after step " + std::to_string(i) + " is " + std::to_string(m.heap[i]) + " bytes, " + std::to_string(base) + " after warm-up (step " + std::to_string(warm) + "); last step " + std::to_string(m.heap[n - 1])};
         if (m.list[i] > listbase + 2) return {"transaction_list_growth", "transaction list holds " + std::to_string(m.list[i]) + " slots after step " + std::to_string(i) + ", at most " + std::to_string(listbase) + " during warm-up"};
     }
     if (m.completes + 2 < n_tx_expected) return {"transactions_never_completed", std::to_string(m.completes) + " TRANSACTION_COMPLETE callbacks for " + std::to_string(n_tx_expected) + " delivered transactions"};
@@ -116,11 +127,13 @@ static void steady() {
     int cases = A.thorough() ? 60 : 8;
     rcx::run("steady_state_mixed", vc::mix(A.seed * 181 + A.shard), cases, 100, [&]() -> std::optional<rcx::Fail> {
         size_t n = (size_t)rcx::range(300, 1500); std::vector<int> seq; int bias = rcx::range(0, (int)sh.size() - 1); size_t expect = 0;
+        for (size_t i = 0; i < 60; i++) { seq.push_back(9); expect++; } // warm-up and tail are gzip responses (a decompressor left behind by an earlier body-less response lives until the next coded response sets up its own): both ends are measured in the same state
         for (size_t i = 0; i < n; i++) { int k = rcx::chance(1, 2) ? bias : rcx::range(0, (int)sh.size() - 1); seq.push_back(k); expect += sh[k].first == "pipelined_two" ? 2 : 1; }
+        for (size_t i = 0; i < 12; i++) { seq.push_back(9); expect++; }
         int pers = rcx::range(0, 9);
         std::string text = steady_text(seq, pers); vc::set_current_case(text);
         Meter m = run_steady(sh, seq, pers, true);
-        auto r = judge(m, expect);
+        auto r = judge(m, expect, 49152);
         if (!rcx::shrinking()) { g_stats.evaluations++; g_stats.cls("steady_mixed_runs"); g_stats.cls("steady_transactions", expect); g_stats.nt(vc::fnv1a(text)); }
         if (!r.first.empty()) return rcx::Fail{"C10:" + r.first + ":mixed", text, r.second};
         return {};
@@ -138,7 +151,7 @@ static std::string lim_text(const LimitCase &c) { std::string s = "limit " + std
 static std::pair<std::string, std::string> run_limit(const LimitCase &lc, bool *limit_hit) {
     vdrv::Config c; c.personality = lc.pers; if (lc.kind != 8) { c.hard = lc.hard; c.soft = lc.hard / 2; } else c.max_tx = lc.hard;
     vdrv::Plan p; vdrv::Options o; o.dump = false; o.keep_data = false;
-    std::string req, res, want; int dir = (lc.kind >= 5 && lc.kind <= 7) || lc.kind == 9 || lc.kind == 10 || lc.kind == 12 || lc.kind == 15 ? 1 : 0;
+    std::string req, res, want; int dir = (lc.kind >= 5 && lc.kind <= 7) || lc.kind == 9 || lc.kind == 10 || lc.kind == 12 || lc.kind == 15 || lc.kind == 17 || lc.kind == 18 ? 1 : 0;
     std::string filler(lc.len, 'a'); for (size_t i = 0; i < filler.size(); i += 7) filler[i] = (char)('b' + (i / 7) % 20);
     switch (lc.kind) {
         case 0: want = "GET /" + filler + " HTTP/1.1"; req = want + "\r\nHost: h\r\n\r\n"; break;
@@ -158,8 +171,15 @@ static std::pair<std::string, std::string> run_limit(const LimitCase &lc, bool *
         case 13: req = "CONNECT h:443 HTTP/1.1\r\nHost: h:443\r\n\r\n"; break; // the tunnelled bytes (no line end) follow the 2xx answer, see below
         case 14: req = "GET / HTTP/1.1\r\nHost: h\r\n\r\n" + filler; break; // bytes without a line end behind a complete request
         case 15: res = "HTTP/1.1 200 OK\r\nContent-Length: 0\r\n\r\n" + filler; break;
+        // 16 / 17: max_tx on histories that never pipeline (strictly serial pairs; responses nobody asked for) - driven below
+        case 16: case 17: break;
+        // 18 / 19: a folded header whose complete lines already add up to more than the limit, followed by a line that never ends:
+        // whatever is pending, the unfinished line itself must stay bounded
+        case 18: { res = "HTTP/1.0 200 OK\r\nX-Fold: start"; for (int i = 0; i < lc.reps; i++) res += "\r\n " + filler; res += "\r\n " + std::string((size_t)lc.hard * 3 + 50, 'u'); break; }
+        case 19: { req = "GET / HTTP/1.1\r\nHost: h\r\nX-Fold: start"; for (int i = 0; i < lc.reps; i++) req += "\r\n " + filler; req += "\r\n " + std::string((size_t)lc.hard * 3 + 50, 'u'); break; }
     }
-    if (dir == 1 && req.empty()) req = "GET / HTTP/1.1\r\nHost: h\r\n\r\n";
+    if (dir == 1 && req.empty() && lc.kind != 17) req = "GET / HTTP/1.1\r\nHost: h\r\n\r\n";
+    if (lc.kind == 16 || lc.kind == 17) c.max_tx = lc.hard, c.hard = -1, c.soft = -1;
     vdrv::Session ss(c, p, o);
     struct Ctx { std::string line, hv, body; bool got_req = false, got_res = false; int kind; } ctx; ctx.kind = lc.kind; ss.user = &ctx;
     ss.observer = [](vdrv::Session *s, const vdrv::Event &e, htp_tx_t *tx) {
@@ -171,12 +191,17 @@ static std::pair<std::string, std::string> run_limit(const LimitCase &lc, bool *
     bool errored = false;
     const std::string &stream = dir == 0 ? req : res;
     if (dir == 1) ss.req(req);
-    if (lc.kind == 13) { ss.req(req); ss.res("HTTP/1.1 200 OK\r\n\r\n"); std::string pay = filler; for (auto &ch : vdrv::cut_at(pay, lc.cuts)) if (!ch.empty()) ss.req(ch); }
+    if (lc.kind == 16 || lc.kind == 17) { // every transaction is complete before the next one starts; nothing is destroyed, so the list still reaches the limit
+        for (int i = 0; i < lc.reps; i++) { if (lc.kind == 16) { const vdrv::Call &a = ss.req("GET /" + std::to_string(i) + " HTTP/1.1\r\nHost: h\r\n\r\n"); if (a.rc == HTP_STREAM_ERROR) errored = true; }
+            const vdrv::Call &b = ss.res("HTTP/1.1 200 OK\r\nContent-Length: 2\r\n\r\nok"); if (b.rc == HTP_STREAM_ERROR) errored = true; if (errored) break; } }
+    else if (lc.kind == 13) { ss.req(req); ss.res("HTTP/1.1 200 OK\r\n\r\n"); std::string pay = filler; for (auto &ch : vdrv::cut_at(pay, lc.cuts)) if (!ch.empty()) ss.req(ch); }
     else for (auto &ch : vdrv::cut_at(stream, lc.cuts)) { const vdrv::Call &cl = dir == 0 ? ss.req(ch) : ss.res(ch); if (cl.rc == HTP_STREAM_ERROR) errored = true; }
     size_t ntx_max = 0; for (auto &cl : ss.result().calls) ntx_max = std::max(ntx_max, cl.ntx);
     vdrv::Result &r = ss.finish();
     for (auto &v : r.violations) if (v.rfind("C10:", 0) == 0) return {v.substr(4), "retention monitor: " + v};
     *limit_hit = errored;
+    if (lc.kind == 16 || lc.kind == 17) { if (ntx_max > (size_t)lc.hard + 1) return {"transactions_over_max_tx_plus_one", std::to_string(ntx_max) + " transactions held with max_tx " + std::to_string(lc.hard) + (lc.kind == 16 ? " (strictly serial request/response pairs)" : " (responses without requests)")};
+        if (lc.reps > lc.hard + 1 && !errored) return {"max_tx_not_enforced", std::to_string(lc.reps) + (lc.kind == 16 ? " serial transactions" : " unsolicited responses") + " accepted with max_tx " + std::to_string(lc.hard)}; return {"", ""}; }
     if (lc.kind == 8) { if (ntx_max > (size_t)lc.hard + 1) return {"transactions_over_max_tx_plus_one", std::to_string(ntx_max) + " transactions held with max_tx " + std::to_string(lc.hard)}; if (lc.reps > lc.hard + 1 && !errored) return {"max_tx_not_enforced", std::to_string(lc.reps) + " pipelined requests accepted with max_tx " + std::to_string(lc.hard)}; return {"", ""}; }
     if (lc.kind == 12 && !errored && ctx.got_res) { // the response side has the same repetition cap
         size_t merged = 1; for (size_t i = 0; i + 1 < ctx.hv.size(); i++) if (ctx.hv[i] == ',' && ctx.hv[i + 1] == ' ') merged++;
@@ -209,23 +234,25 @@ static void limits() {
     int cases = A.thorough() ? 6000 : 500;
     static const long HARD[] = {16, 32, 64, 100, 255, 256, 1000, 4096, 18000, 65536};
     rcx::run("limits", vc::mix(A.seed * 191 + A.shard), cases, 100, [&]() -> std::optional<rcx::Fail> {
-        LimitCase lc; lc.kind = rcx::range(0, 15); lc.pers = rcx::range(0, 9); lc.hard = HARD[rcx::range(0, 9)]; lc.reps = 1;
-        if (lc.kind == 8) { lc.hard = rcx::range(1, 64); lc.reps = rcx::range(1, 80); lc.len = 0; }
+        LimitCase lc; lc.kind = rcx::range(0, 19); lc.pers = rcx::range(0, 9); lc.hard = HARD[rcx::range(0, 9)]; lc.reps = 1;
+        if (lc.kind == 8 || lc.kind == 16 || lc.kind == 17) { lc.hard = rcx::range(1, 64); lc.reps = rcx::range(1, 80); lc.len = 0; }
         else {
             // lengths around the limit (and well above / below)
             int mode = rcx::range(0, 3); long l = mode == 0 ? lc.hard + rcx::range(-40, 40) : mode == 1 ? lc.hard / 2 + rcx::range(-5, 5) : mode == 2 ? lc.hard * 2 + rcx::range(0, 50) : rcx::range(1, 300);
             if (l < 1) l = 1; if (l > 140000) l = 140000; lc.len = (size_t)l;
+            if (lc.kind == 18 || lc.kind == 19) { lc.len = (size_t)std::max<long>(8, lc.hard / 3 + rcx::range(0, 20)); lc.reps = rcx::range(3, 6); if (lc.hard > 20000) lc.hard = 18000; }
             if (lc.kind == 2 || lc.kind == 7) { lc.reps = rcx::chance(1, 6) ? rcx::range(20, 60) : rcx::range(1, 5); if (lc.reps > 10 && lc.len < 3000) lc.len = (size_t)rcx::range(3000, 6000); }
             if (lc.kind == 3 || lc.kind == 12) { lc.reps = rcx::chance(1, 3) ? rcx::range(60, 80) : rcx::range(1, 6); if (lc.len > 300) lc.len = 300; if (lc.kind == 12 && lc.len > 0 && (long)lc.len > lc.hard - 20) lc.len = (size_t)std::max<long>(1, lc.hard - 20); }
             if ((lc.kind == 4 || lc.kind == 9) && lc.len > 20000) lc.len = 20000;
         }
-        size_t total = 200 + lc.len * (size_t)std::max(1, lc.reps) + 40 * (size_t)lc.reps; int nc = rcx::range(0, 8); int style = rcx::range(0, 2);
+        size_t total = 200 + lc.len * (size_t)std::max(1, lc.reps) + 40 * (size_t)lc.reps + ((lc.kind == 18 || lc.kind == 19) ? (size_t)lc.hard * 3 + 50 : 0); int nc = rcx::range(0, 8); int style = rcx::range(0, 2);
         for (int i = 0; i < nc; i++) lc.cuts.push_back((size_t)rcx::range(1, (int)std::min<size_t>(total, 200000)));
         if (style == 1) { size_t step = (size_t)rcx::range(1, 64); for (size_t x = step; x < total && lc.cuts.size() < 6000; x += step) lc.cuts.push_back(x); }
+        if ((lc.kind == 18 || lc.kind == 19) && rcx::coin()) { size_t tail_at = total - ((size_t)lc.hard * 3 + 50) - 150; lc.cuts.erase(std::remove_if(lc.cuts.begin(), lc.cuts.end(), [&](size_t x) { return x < tail_at + (size_t)lc.hard / 2; }), lc.cuts.end()); } // all complete lines arrive in one piece together with the start of the unfinished one
         std::sort(lc.cuts.begin(), lc.cuts.end()); lc.cuts.erase(std::unique(lc.cuts.begin(), lc.cuts.end()), lc.cuts.end());
         std::string text = lim_text(lc); vc::set_current_case(text);
         bool hit = false; auto r = run_limit(lc, &hit);
-        if (!rcx::shrinking()) { g_stats.evaluations++; g_stats.cls("limit_cases"); static const char *K[] = {"request_line", "request_header", "request_folded", "request_repeated", "request_chunk_size_line", "status_line", "response_header", "response_folded", "max_tx", "response_chunk_size_line", "response_trailer", "request_trailer", "response_repeated", "connect_probe", "bytes_behind_request", "bytes_behind_response"}; g_stats.cls(std::string("limit_kind_") + K[lc.kind]); if (hit) { g_stats.cls("limit_actually_reached_error"); g_stats.nt(vc::fnv1a(text)); } g_stats.sample_sparse(text, g_stats.evaluations); }
+        if (!rcx::shrinking()) { g_stats.evaluations++; g_stats.cls("limit_cases"); static const char *K[] = {"request_line", "request_header", "request_folded", "request_repeated", "request_chunk_size_line", "status_line", "response_header", "response_folded", "max_tx", "response_chunk_size_line", "response_trailer", "request_trailer", "response_repeated", "connect_probe", "bytes_behind_request", "bytes_behind_response", "max_tx_serial", "max_tx_unsolicited_responses", "response_unfinished_line_behind_folded_header", "request_unfinished_line_behind_folded_header"}; g_stats.cls(std::string("limit_kind_") + K[lc.kind]); if (hit) { g_stats.cls("limit_actually_reached_error"); g_stats.nt(vc::fnv1a(text)); } g_stats.sample_sparse(text, g_stats.evaluations); }
         if (!r.first.empty()) { std::string sig = "C10:" + r.first; if (A.is_known(sig)) { if (!rcx::shrinking()) g_stats.attributed[sig]++; return {}; } return rcx::Fail{sig, text, r.second}; }
         return {};
     });
@@ -234,7 +261,7 @@ static void limits() {
 static int replay(const std::string &path) {
     std::string f = vc::read_file(path); std::vector<std::string> t; size_t p = 0; while (p < f.size()) { while (p < f.size() && isspace((unsigned char)f[p])) p++; size_t e = p; while (e < f.size() && !isspace((unsigned char)f[e])) e++; if (e > p) t.push_back(f.substr(p, e - p)); p = e; }
     std::pair<std::string, std::string> r{"bad_replay_file", ""};
-    if (t.size() >= 2 && t[0] == "steady") { auto sh = shapes(); int pers = atoi(t[1].c_str()); std::vector<int> seq; size_t expect = 0; for (size_t i = 2; i < t.size(); i++) { int k = atoi(t[i].c_str()); if (k >= 0 && k < (int)sh.size()) { seq.push_back(k); expect += sh[k].first == "pipelined_two" ? 2 : 1; } } Meter m = run_steady(sh, seq, pers, true); r = judge(m, expect); }
+    if (t.size() >= 2 && t[0] == "steady") { auto sh = shapes(); int pers = atoi(t[1].c_str()); std::vector<int> seq; size_t expect = 0; for (size_t i = 2; i < t.size(); i++) { int k = atoi(t[i].c_str()); if (k >= 0 && k < (int)sh.size()) { seq.push_back(k); expect += sh[k].first == "pipelined_two" ? 2 : 1; } } Meter m = run_steady(sh, seq, pers, true); bool mixed = false; for (int k : seq) if (k != seq[0]) mixed = true; r = judge(m, expect, mixed ? 49152 : 0); }
     else if (t.size() >= 7 && t[0] == "limit") { LimitCase lc; lc.kind = atoi(t[1].c_str()); lc.hard = atol(t[2].c_str()); lc.len = atol(t[3].c_str()); lc.pers = atoi(t[4].c_str()); lc.reps = atoi(t[5].c_str()); for (size_t i = 7; i < t.size(); i++) lc.cuts.push_back(atol(t[i].c_str())); bool hit; r = run_limit(lc, &hit); }
     if (r.first.empty()) { printf("REPLAY-OK\n"); return 0; }
     printf("REPLAY-FAIL sig=C10:%s\n%s\n", r.first.c_str(), r.second.c_str()); return 1;
